@@ -112,6 +112,25 @@ theorem mouse_handler_shape :
        "index field lastHits", "call HandleEvent", "call handleCommand",
        "index field lastHits", "call HandleEvent", "call handleCommand"] := by decide
 
+/-- Error plumbing of `focusWidget` as `Model.Vxfw.eFocusWidgetWith` transcribes it: a failing
+FocusOut handler returns before anything changes; after the FocusIn call the FocusOut handler's
+command is handled *before* the error test, the FocusIn handler's command after it. -/
+theorem focus_widget_error_plumbing :
+    skel "focusHandler.focusWidget" ["if", "return", "call HandleEvent", "set focused", "call findPath", "call handleCommand"] =
+      ["if", "return", "call HandleEvent", "if", "return", "set focused", "call findPath", "call HandleEvent",
+       "call handleCommand", "if", "return", "call handleCommand", "return"] := by decide
+
+/-- Every handler call of the two dispatchers and of the notification loops is followed by
+`if err != nil { return err }` before its command is handled (`eOffer`, `eNotify`). -/
+theorem dispatch_error_plumbing :
+    skel "focusHandler.handleEvent" ["call CaptureEvent", "call HandleEvent", "call handleCommand", "return"] =
+      ["call CaptureEvent", "return", "call handleCommand", "return", "call HandleEvent", "return", "call handleCommand",
+       "return", "call HandleEvent", "return", "call handleCommand", "return", "return"] ∧
+    skel "mouseHandler.mouseExit" ["call HandleEvent", "call handleCommand", "return"] =
+      ["call HandleEvent", "return", "call handleCommand", "return"] ∧
+    skel "mouseHandler.mouseEnter" ["call HandleEvent", "call handleCommand", "return"] =
+      ["return", "call HandleEvent", "return", "call handleCommand", "return"] := by decide
+
 /-- Every function the skeleton facts speak about was found in the source. -/
 theorem skeletons_found :
     Gen.VxfwCases.skeletons.all (fun x => !x.2.contains "?missing") = true ∧
